@@ -805,6 +805,43 @@ func c5Atomic(c *Ctx) {
 	if n != 1 {
 		c.Bad("R5.6", sl.String(), "atomic-store", sl.Pos(), "expected one atomic Store, found %d", n)
 	}
+	// the counter an AtomicLevel points at is what its copies (held by cores and loggers) share: a method may
+	// install a counter only where there was none (lazy allocation), never replace one
+	ms := c.SSA.MethodSets.MethodSet(types.NewPointer(al))
+	for i := 0; i < ms.Len(); i++ {
+		fn := c.SSA.MethodValue(ms.At(i))
+		if fn == nil || len(fn.Blocks) == 0 || fn.Synthetic != "" || len(fn.Params) == 0 {
+			continue
+		}
+		if _, isPtr := types.Unalias(fn.Params[0].Type()).(*types.Pointer); !isPtr {
+			continue
+		}
+		recv := fn.Params[0]
+		k := 0
+		for _, f := range Region(fn) {
+			AllInstrs(f, func(in ssa.Instruction) {
+				stI, ok := in.(*ssa.Store)
+				if !ok {
+					return
+				}
+				var rootD string
+				Bound(func() { rootD = Desc(Root(stI.Addr)) })
+				if Root(stI.Addr) != ssa.Value(recv) && rootD != recv.Name() {
+					return
+				}
+				k++
+				var g []string
+				Bound(func() { g = AtomStrings(Guards(stI)) })
+				lazy := containsS(g, recv.Name()+".l == nil")
+				c.Check(lazy, "R5.6", fn.String(), "pointer-stable#"+itoa(k), stI.Pos(), "a store through the *AtomicLevel receiver (%s) happens only where no counter existed yet (guards %v); replacing the counter detaches every logger built from an earlier copy, which then never sees later level changes", Desc(stI.Addr), g)
+			})
+		}
+	}
+	// hook lists: registering hooks on a hooked core never shares the parent's slice tail (a sibling's hook would be
+	// overwritten and fire for entries it never saw)
+	if rh := c.Func(CorePath, "RegisterHooks"); rh != nil {
+		c7Appends(c, "R5.6", rh)
+	}
 }
 
 // ConstObjInt returns the integer value of a constant object.
